@@ -171,7 +171,7 @@ def run_small(res, work, tier, seed):
     trace = core.drive("codec", runs, work, "codec_small")
     tv = tlc.validate_trace("HcobsTrace", "HcobsTrace.cfg", trace, os.path.join(work, "tv"), timeout=1800)
     by_id = {r["run"]: r for r in runs}
-    res.add_tv(tv, by_id, "codec", "H3 edge-cover + random tiny-limit")
+    res.add_tv(tv, by_id, "codec", "H3 edge-cover + random tiny-limit", crash_props=("C01", "C07", "C05"))
     cnt = _count_nontrivial(runs)
     rule = ("distinct codec runs (limits, input, operation sequence) fed in >= 2 pieces whose input contains "
             "FE or FD; runs = edge-cover paths of the HcobsMC graphs executed through hook H3 (%d) + seeded random "
@@ -363,7 +363,7 @@ def run_prod(res, work, tier, seed):
         trace = core.drive("codec", b, work, "codec_prod%d" % bi)
         tv = tlc.validate_trace("HcobsTrace", "HcobsTrace.cfg", trace, os.path.join(work, "tv"),
                                 timeout=3000, xmx="12g")
-        res.add_tv(tv, {r["run"]: r for r in b}, "codec", "production limits")
+        res.add_tv(tv, {r["run"]: r for r in b}, "codec", "production limits", crash_props=("C01", "C07", "C05"))
         os.remove(trace)
     cnt = _count_nontrivial(runs)
     rule = ("distinct production-limit runs (real Encoder -> real Decoder round trips, %d; decoder negative "
@@ -382,4 +382,4 @@ def replay(rep, work):
     run = rep["run"]
     trace = core.drive("codec", [run], work, "replay")
     tv = tlc.validate_trace("HcobsTrace", "HcobsTrace.cfg", trace, os.path.join(work, "tv"), xmx="8g")
-    return tv["viol"]
+    return tv["viol"] + core.crash_viols(("C01", "C07", "C05"))
